@@ -1,15 +1,22 @@
-//! C13 driver: the library entry point `generate_from_config` on a project / output directory that the
-//! python side prepared (used for the prior-state stream: the output directory already holds files).
+//! C13 driver: the entry points of the library other than the CLI binary.
+//! `c13 lib`      JSON lines {"id","project","out","mode","viz","type_mappings": {..}|null}: calls
+//!                `generate_from_config` in the current working directory (paths may be relative).
+//! `c13 build1`   (no stdin) calls `BuildSystem::generate_at_build_time()` in the current working
+//!                directory (which must hold tauri.conf.json); exit status 0 = Ok, 3 = Err.
 use serde_json::{json, Value};
+use std::collections::HashMap;
 use tauri_typegen::{generate_from_config, GenerateConfig};
 
-/// case: {"id", "project": dir, "out": dir, "mode": "none"|"zod", "viz": bool}
 pub fn lib(case: &Value) -> Value {
+    let mappings: Option<HashMap<String, String>> = case["type_mappings"].as_object().map(|m| {
+        m.iter().map(|(k, v)| (k.clone(), v.as_str().unwrap_or("").to_string())).collect()
+    });
     let config = GenerateConfig {
         project_path: case["project"].as_str().unwrap().to_string(),
         output_path: case["out"].as_str().unwrap().to_string(),
         validation_library: case["mode"].as_str().unwrap_or("none").to_string(),
         visualize_deps: Some(case["viz"].as_bool().unwrap_or(false)),
+        type_mappings: mappings,
         force: Some(true),
         ..Default::default()
     };
@@ -19,6 +26,20 @@ pub fn lib(case: &Value) -> Value {
     }
 }
 
+fn build1() -> ! {
+    match tauri_typegen::BuildSystem::generate_at_build_time() {
+        Ok(()) => std::process::exit(0),
+        Err(e) => {
+            eprintln!("ERR: {e}");
+            std::process::exit(3)
+        }
+    }
+}
+
 fn main() {
+    let args: Vec<String> = std::env::args().collect();
+    if args.get(1).map(|s| s.as_str()) == Some("build1") {
+        build1();
+    }
     tt_harness::dispatch(&[("lib", lib)]);
 }
